@@ -2,7 +2,10 @@
 Table._calculate_column_widths and the rendered table.
 
 Table description (the `arg` of table_widths / table_render):
-  [opts, box?, cols, rows, W, [title?, caption?]]
+  [opts, box?, cols, rows, W, [title?, caption?], copts]
+  copts = [no_wrap (0 None/1 True/2 False), soft_wrap, justify (0 None, 1..4), overflow (0 None, 1 fold/2 crop/
+           3 ellipsis), crop, mode (0 = console.render(table, console.options.update(...)), 1 = console.print(table, ...)
+           captured)] -- the console-level options the table is rendered / printed under
   opts = [box, edge, header, footer, lines, leading, [pt,pr,pb,pl], collapse, pad_edge, expand, width?, minw?]
   col  = [width?, minw?, maxw?, ratio?, nowrap, justify, overflow, header_text, footer_text]
   row  = [[cell_text, ...], end_section]
@@ -85,6 +88,10 @@ def _text(x):
 
 def sanitize(d):
     d = list(d) if isinstance(d, list) else []
+    co = d[6] if len(d) > 6 and isinstance(d[6], list) else []
+    co = [x if isinstance(x, int) else 0 for x in co[:6]]
+    co = co + [0, 0, 0, 0, 1, 0][len(co):]
+    co = [co[0] % 3, _flag(co[1]), co[2] % 5, co[3] % 4, _flag(co[4]), _flag(co[5])]
     d = (d + [[], [], [], [], 20, []])[:6] if len(d) < 6 else d[:6]
     o = list(d[0]) if isinstance(d[0], list) else []
     o = o[:12] + DEFAULT_OPTS[len(o[:12]):]
@@ -116,7 +123,7 @@ def sanitize(d):
     ex = d[5] if isinstance(d[5], list) else []
     ex = (list(ex) + [[], []])[:2]
     extras = [[_text(e[0])] if isinstance(e, list) and e and isinstance(e[0], list) and e[0] else [] for e in ex]
-    return [opts, box, cols, rows, W, extras]
+    return [opts, box, cols, rows, W, extras, co]
 
 
 # ---------------------------------------------------------------- generators
@@ -187,7 +194,11 @@ def rdesc(rng, plain=False):
         rows.append([[s2t(rtext(rng, 1 + i, kinds)) for _ in range(ncols)], 1 if rng.random() < 0.15 else 0])
     extras = [opt(rng, 0.15, lambda: s2t("Title " + "t" * rng.randint(0, 30))),
               opt(rng, 0.1, lambda: s2t("Caption"))]
-    desc = [opts, box, cols, rows, 0, extras]
+    copts = [0, 0, 0, 0, 1, 0]
+    if not plain and rng.random() < 0.45:
+        copts = [rng.choice([0, 1, 1, 2]), 1 if rng.random() < 0.3 else 0, rng.randrange(5), rng.randrange(4),
+                 rng.randint(0, 1), rng.randint(0, 1)]
+    desc = [opts, box, cols, rows, 0, extras, copts]
     sm = smin(desc)
     r = rng.random()
     if r < 0.12:
@@ -344,7 +355,7 @@ def model_case(op, arg):
 def build(desc, with_annot=True):
     from rich.table import Table, Column
     from rich import box as rbox
-    opts, bx, cols, rows, W, extras = desc
+    opts, bx, cols, rows, W, extras, copts = desc
     columns = []
     for col in cols:
         columns.append(Column(header=t2s(col[7]), footer=t2s(col[8]),
@@ -377,6 +388,37 @@ def render_text_lines(con, renderable):
     from rich.segment import Segment
     lines = list(Segment.split_lines(con.render(renderable, con.options)))
     return ["".join(s.text for s in l if not s.is_control) for l in lines]
+
+
+NOWRAP = [None, True, False]
+JUST = [None, "left", "center", "right", "full"]
+OVER = [None, "fold", "crop", "ellipsis"]
+
+
+def render_under(con, renderable, copts):
+    """the text lines of `renderable` rendered / printed under the console-level options copts, and the
+    ConsoleOptions it was handed (what Table.__rich_console__ sees)"""
+    from rich.segment import Segment
+    no_wrap, soft, justify, overflow = NOWRAP[copts[0]], bool(copts[1]), JUST[copts[2]], OVER[copts[3]]
+    crop, mode = bool(copts[4]), copts[5]
+    if soft:       # Console.print(soft_wrap=True)
+        no_wrap = True if no_wrap is None else no_wrap
+        overflow_eff = "ignore" if overflow is None else overflow
+    else:
+        overflow_eff = overflow
+    if mode == 0:
+        options = con.options.update(no_wrap=no_wrap, justify=justify, overflow=overflow_eff)
+        lines = list(Segment.split_lines(con.render(renderable, options)))
+        return ["".join(s.text for s in l if not s.is_control) for l in lines], options
+    # justify left/center/right would wrap the table in Align (C08's business): only None / "full" here
+    j = justify if justify in (None, "full") else None
+    con.print(renderable, no_wrap=NOWRAP[copts[0]], overflow=overflow, justify=j, soft_wrap=soft, crop=crop)
+    text = con.file.getvalue()
+    lines = text.split("\n")
+    if lines and lines[-1] == "":
+        lines.pop()
+    options = con.options.update(justify="default", overflow=overflow_eff, no_wrap=no_wrap)
+    return lines, options
 
 
 def impl(op, arg):
@@ -415,7 +457,7 @@ def impl(op, arg):
     if op == "cells_raw":
         op = "table_render"
     desc = sanitize(arg)
-    opts, bx, cols, rows, W, extras = desc
+    opts, bx, cols, rows, W, extras, copts = desc
     con = console(W)
     t = build(desc, with_annot=False)
     target = opts[10][0] if opts[10] else W
@@ -424,9 +466,10 @@ def impl(op, arg):
     if op == "table_render":
         from rich.segment import Segment
         widths = t._calculate_column_widths(con, target - t._extra_width)
-        body = render_text_lines(con, t)
-        # the cells as _render sees them, rendered on their own at the column widths
-        ro = con.options.update(width=sum(widths) + t._extra_width, highlight=False)
+        body, options = render_under(con, t, copts)
+        # the cells as _render sees them, rendered on their own at the column widths under the options the
+        # table was handed (Table overrides justify / no_wrap / overflow per column: update(None) = keep)
+        ro = options.update(width=sum(widths) + t._extra_width, highlight=False)
         colcells = [list(t._get_cells(con, j, c)) for j, c in enumerate(t.columns)]
         out_rows = []
         nshown = len(colcells[0]) if colcells else 0
@@ -444,7 +487,7 @@ def impl(op, arg):
         # title / caption stand on lines of their own around an unchanged body
         annot_ok = 1
         if extras[0] or extras[1]:
-            full = render_text_lines(console(W), build(desc, with_annot=True))
+            full, _ = render_under(console(W), build(desc, with_annot=True), copts)
             annot_ok = 0
             for k in range(0, len(full) - len(body) + 1):
                 if full[k:k + len(body)] == body:
@@ -485,7 +528,7 @@ def spec_cases(op, arg, out):
         # the property's statement without the theorem's per-column hypothesis (cell_room): every fold,
         # wrapping column is held to "all its characters, in order, inside its span"
         desc = sanitize(arg)
-        opts, bx, cols, rows, W, extras = desc
+        opts, bx, cols, rows, W, extras, copts = desc
         widths, out_rows, body, annot_ok = out
         colspec = []
         for j in range(len(cols)):
@@ -495,10 +538,13 @@ def spec_cases(op, arg, out):
         return [("spec.cells_in_columns", [bx, opts[1], [STALE, opts, model_cols(desc), W], colspec, body])]
     if op == "table_render":
         desc = sanitize(arg)
-        opts, bx, cols, rows, W, extras = desc
+        opts, bx, cols, rows, W, extras, copts = desc
         widths, out_rows, body, annot_ok = out
         n = len(cols)
         target = opts[10][0] if opts[10] else W
+        if copts[5] == 1 and copts[4] == 1 and not copts[1] and sum(widths) + extra_width(desc) > W:
+            # console.print(crop=True) of a table wider than the console: the lines are cut at W
+            return [("spec.rect", body)]
         # (1) the assembly model reproduces the implementation's lines from its own cell lines
         res.append(("spec.render_eq", [LEAD_MUL[0], opts, bx, widths, out_rows, body]))
         # "asked to expand => exactly the width asked for": the guard is Table.expand_dom_b, the very
@@ -570,9 +616,10 @@ def known_ratio_column_min(op, arg):
 def describe(op, arg):
     try:
         if op in ("table_widths", "table_render", "cells_raw"):
-            opts, bx, cols, rows, W, extras = sanitize(arg)
+            opts, bx, cols, rows, W, extras, copts = sanitize(arg)
             return (f"Table {len(cols)} cols x {len(rows)} rows, box={BOX_NAMES[bx[0]] if bx else None}, W={W}, "
-                    f"expand={opts[9]} width={opts[10]} min_width={opts[11]} leading={opts[5]} padding={opts[6]}")
+                    f"expand={opts[9]} width={opts[10]} min_width={opts[11]} leading={opts[5]} padding={opts[6]} "
+                    f"console opts (no_wrap,soft_wrap,justify,overflow,crop,print)={copts}")
     except Exception:
         pass
     return None
